@@ -4,8 +4,20 @@ package main
 // no git-lfs code. It is a LOWER BOUND on what `git lfs prune` has to keep.
 // Weakest readings chosen where git-lfs-prune(1) leaves room:
 //
-//   checkout   pointers in the tree of HEAD of every worktree            [waived by --force]
-//   index      stage-0 index entries of every worktree                   [waived by --force]
+//   checkout   pointers in the tree of HEAD of every REGISTERED worktree,
+//              i.e. every non-bare entry of `git worktree list --porcelain`
+//              run in the main worktree (HEAD taken from that listing),
+//              whether or not its directory exists: a linked worktree whose
+//              directory was removed stays registered (Git calls it
+//              `prunable`, or it is `locked`) until `git worktree prune`
+//              drops it, and git-lfs-prune(1) retains "the current checkout
+//              of any worktree"; upstream's t-prune-worktree.sh expects the
+//              object to survive exactly until `git worktree prune`. After
+//              `git worktree prune` the entry is no longer listed and
+//              nothing is demanded for it.                               [waived by --force]
+//   index      stage-0 index entries of every registered worktree whose
+//              directory exists (a missing directory cannot be scanned;
+//              nothing is demanded for its index)                        [waived by --force]
 //   stashed    pointers in the trees of a stash commit, its index commit
 //              (^2) and its untracked commit (^3) whose oid does NOT occur
 //              in the tree of the stash's base commit (^1): "what the
@@ -45,6 +57,7 @@ package main
 
 import (
 	"fmt"
+	"os"
 	"path"
 	"strconv"
 	"strings"
@@ -70,6 +83,117 @@ type oracle struct {
 	// else "second-remote"
 	remoteRefKind map[string]string
 	exclude       []string
+	// checkout clause: oid -> states of the registered worktrees whose HEAD tree holds it
+	// ("present" | "dir-missing" | "dir-missing-locked")
+	checkoutVia map[string]map[string]bool
+	worktrees   []wtInfo
+}
+
+// wtInfo is one entry of `git worktree list --porcelain -z`.
+type wtInfo struct {
+	Path     string
+	Head     string
+	Branch   string
+	Detached bool
+	Locked   bool
+	Prunable bool // as reported by Git
+	Bare     bool
+	Missing  bool // the directory does not exist (checked by the driver)
+}
+
+func (w wtInfo) state() string {
+	switch {
+	case !w.Missing:
+		return "present"
+	case w.Locked:
+		return "dir-missing-locked"
+	}
+	return "dir-missing"
+}
+
+// listWorktrees: the registered worktrees according to Git itself (run in the main worktree, filters disabled).
+func (c *cs) listWorktrees() []wtInfo {
+	out, ok := c.plain(c.main, "worktree", "list", "--porcelain", "-z")
+	if !ok {
+		panic("git worktree list failed")
+	}
+	var all []wtInfo
+	var cur *wtInfo
+	flush := func() {
+		if cur != nil && cur.Path != "" {
+			if fi, err := os.Stat(cur.Path); err != nil || !fi.IsDir() {
+				cur.Missing = true
+			}
+			all = append(all, *cur)
+		}
+		cur = nil
+	}
+	for _, line := range strings.Split(out, "\x00") {
+		if line == "" {
+			flush()
+			continue
+		}
+		key, val, _ := strings.Cut(line, " ")
+		if key == "worktree" {
+			flush()
+			cur = &wtInfo{Path: val}
+			continue
+		}
+		if cur == nil {
+			continue
+		}
+		switch key {
+		case "HEAD":
+			cur.Head = val
+		case "branch":
+			cur.Branch = val
+		case "detached":
+			cur.Detached = true
+		case "locked":
+			cur.Locked = true
+		case "prunable":
+			cur.Prunable = true
+		case "bare":
+			cur.Bare = true
+		}
+	}
+	flush()
+	return all
+}
+
+// checkoutTrigger: the coordinate of a pruned checkout object. An object that only worktrees without a directory
+// need carries the state of those worktrees, whatever else the case contains ("" = the case's own trigger).
+func (o *oracle) checkoutTrigger(oid string) string {
+	via := o.checkoutVia[oid]
+	switch {
+	case via["present"] || len(via) == 0:
+		return ""
+	case via["dir-missing"]:
+		return "worktree-dir-missing"
+	}
+	return "worktree-dir-missing-locked"
+}
+
+// neededOnlyBy counts the objects that nothing but the checkout of registered worktrees in the given state retains
+// (no other clause, no worktree in another state; for "present" the index clause is not counted as another reason,
+// the index of an existing worktree lists its whole checkout).
+func (o *oracle) neededOnlyBy(state string) int {
+	n := 0
+	for oid, via := range o.checkoutVia {
+		if len(via) != 1 || !via[state] {
+			continue
+		}
+		other := false
+		for cl, m := range o.clause {
+			if _, ok := m[oid]; ok && cl != "checkout" && !(cl == "index" && state == "present") {
+				other = true
+			}
+		}
+		if !other {
+			n++
+		}
+	}
+	return n
 }
 
 var clauseOrder = []string{"unpushed", "stashed", "checkout", "index", "recent-ref", "recent-commit", "recent-remote-ref"}
@@ -198,25 +322,50 @@ func short(s string) string {
 }
 
 func (c *cs) computeOracle() *oracle {
-	o := &oracle{clause: map[string]map[string]string{}, reachable: map[string]string{}, reachPaths: map[string]map[string]bool{}, stashBase: map[string]string{}, detachedOnly: map[string]string{}, remoteRefKind: map[string]string{}, exclude: c.cfg.Exclude}
+	o := &oracle{clause: map[string]map[string]string{}, reachable: map[string]string{}, reachPaths: map[string]map[string]bool{}, stashBase: map[string]string{}, detachedOnly: map[string]string{}, remoteRefKind: map[string]string{}, exclude: c.cfg.Exclude, checkoutVia: map[string]map[string]bool{}}
 	for _, cl := range clauseOrder {
 		o.clause[cl] = map[string]string{}
 	}
 	remoteGlob := "--remotes=" + c.cfg.PruneRemote()
-	worktrees := append([]string{c.main}, c.wts...)
+	o.worktrees = c.listWorktrees()
+	var worktrees []wtInfo // registered, non-bare, with a HEAD commit
+	for _, w := range o.worktrees {
+		c.run.Count("worktrees_registered", 1)
+		if w.Bare || strings.Trim(w.Head, "0") == "" {
+			continue
+		}
+		worktrees = append(worktrees, w)
+		c.run.Count("worktrees_"+strings.ReplaceAll(w.state(), "-", "_"), 1)
+		if w.Prunable {
+			c.run.Count("worktrees_prunable", 1)
+		}
+		if w.Prunable != (w.Missing && !w.Locked) {
+			c.run.Count("worktrees_prunable_flag_differs_from_directory_state", 1)
+		}
+		if w.Detached && w.Path != c.main {
+			c.run.Count("worktrees_linked_detached", 1)
+		}
+	}
 
 	// checkout + index
 	for _, w := range worktrees {
-		out, ok := c.plain(w, "rev-parse", "-q", "--verify", "HEAD^{commit}")
-		if ok {
-			head := strings.TrimSpace(out)
+		if _, ok := c.plain(c.main, "rev-parse", "-q", "--verify", w.Head+"^{commit}"); ok {
+			head := w.Head
 			for _, p := range c.ptrsAt(head) {
 				if !excluded(o.exclude, p.Path) {
-					o.add("checkout", p.Ptr.Oid, fmt.Sprintf("HEAD %s of worktree %s, path %q", short(head), c.rel(w), p.Path))
+					o.add("checkout", p.Ptr.Oid, fmt.Sprintf("HEAD %s of registered worktree %s (%s), path %q", short(head), c.rel(w.Path), w.state(), p.Path))
+					if o.checkoutVia[p.Ptr.Oid] == nil {
+						o.checkoutVia[p.Ptr.Oid] = map[string]bool{}
+					}
+					o.checkoutVia[p.Ptr.Oid][w.state()] = true
 				}
 			}
 		}
-		out, ok = c.plain(w, "ls-files", "-s", "-z")
+		if w.Missing {
+			continue
+		}
+		staged := false
+		out, ok := c.plain(w.Path, "ls-files", "-s", "-z")
 		if !ok {
 			continue
 		}
@@ -238,8 +387,14 @@ func (c *cs) computeOracle() *oracle {
 		c.blobPointers(shas)
 		for _, e := range ents {
 			if bp := c.blobs[e.sha]; bp != nil && bp.ok && !excluded(o.exclude, e.path) {
-				o.add("index", bp.oid, fmt.Sprintf("index of worktree %s, path %q", c.rel(w), e.path))
+				o.add("index", bp.oid, fmt.Sprintf("index of worktree %s, path %q", c.rel(w.Path), e.path))
+				if _, inHead := o.clause["checkout"][bp.oid]; !inHead {
+					staged = true
+				}
 			}
+		}
+		if staged && w.Path != c.main {
+			c.run.Count("worktrees_linked_with_staged_lfs_file", 1)
 		}
 	}
 
@@ -354,11 +509,11 @@ func (c *cs) computeOracle() *oracle {
 	}
 	// observed only: unpushed objects that hang on a detached HEAD alone
 	for _, w := range worktrees {
-		if out, ok := c.plain(w, "rev-list", "HEAD", "--not", "--branches", "--tags", remoteGlob); ok {
+		if out, ok := c.plain(c.main, "rev-list", w.Head, "--not", "--branches", "--tags", remoteGlob); ok {
 			for _, cm := range strings.Fields(out) {
 				for _, p := range c.ptrsAt(cm) {
 					if _, un := o.clause["unpushed"][p.Ptr.Oid]; !pushed[p.Ptr.Oid] && !un {
-						o.detachedOnly[p.Ptr.Oid] = "detached HEAD of " + c.rel(w)
+						o.detachedOnly[p.Ptr.Oid] = "detached HEAD of " + c.rel(w.Path)
 					}
 				}
 			}
